@@ -111,7 +111,11 @@ Proof.
   intros r Hin Hk Hnf T HT Hoc x n Hx Hc Ha Hov.
   destruct (decls_admissible r Hin Hk Hnf) as (T' & HT' & Hd). rewrite HT in HT'. injection HT' as <-.
   specialize (Hd Hoc).
-  split; eapply apply_lop_preserves; eauto; cbn [adm_lop]; rewrite Hx, Hoc, Hd, Ha, Hc; reflexivity.
+  split.
+  - apply (apply_lop_preserves schema0 (dc_ty r) T (InsertChild x (dc_succ r)) n HT); [|exact Hov].
+    unfold adm_lop. rewrite Hx, Hoc, Hd, Ha, Hc. reflexivity.
+  - apply (apply_lop_preserves schema0 (dc_ty r) T (GetOrAdd x (dc_succ r)) n HT); [|exact Hov].
+    unfold adm_lop. rewrite Hx, Hoc, Hd, Ha, Hc. reflexivity.
 Qed.
 
 (** ATTRIBUTES: no declared attribute whose simple-type class has a canonical descriptor
